@@ -180,12 +180,13 @@ def _schema(ctx, py):
 
 
 def _schema_native(py, st):
-    t = np.array([0.0, 0.1, 0.25, 0.3])
+    t = np.array([0.0, 1.0 / 128, 0.25 + 1e-7, 0.3 + 1.0 / 3])      # stamps that are not multiples of any decimal unit
     imu = pd.DataFrame(np.arange(24.0).reshape(4, 6), index=pd.Index(t, name="time"), columns=GYRO + ACCEL)
     out = py.strapdown.compute_increments_from_imu(imu, st)
     ok = (len(out) == 3 and list(out.columns) == COLS and np.array_equal(out.index.values, t[1:])
-          and np.allclose(out["dt"].values, np.diff(t)))
-    return dict(reproduced=not ok, rows=len(out), columns=list(out.columns))
+          and np.array_equal(out["dt"].values, np.diff(t)))
+    return dict(reproduced=not ok, rows=len(out), columns=list(out.columns), stamps=list(map(float, t)),
+                dt_column=list(map(float, out["dt"].values)) if "dt" in out else None, stamp_differences=list(map(float, np.diff(t))))
 
 
 def replay(obligation, cex):
